@@ -30,13 +30,16 @@ def main():
         if fn is None and spec["q"] in ("ecies", "aes_dispatch"):
             from mirsym import queries_ecies as QE
             fn = getattr(QE, "q_" + spec["q"])
+        if fn is None and spec["q"] in ("checksig",):
+            from mirsym import queries_checksig as QCS
+            fn = getattr(QCS, "q_" + spec["q"])
         if fn is None and spec["q"] in ("ecdsa_glue",):
             from mirsym import queries_sign as QSG
             fn = getattr(QSG, "q_" + spec["q"])
         if fn is None and spec["q"] in ("bip32", "bip32_path"):
             from mirsym import queries_bip32 as QB
             fn = getattr(QB, "q_" + spec["q"])
-        if fn is None and spec["q"] in ("decoders",):
+        if fn is None and spec["q"] in ("decoders", "pubkey_use"):
             from mirsym import queries_total as QTT
             fn = getattr(QTT, "q_" + spec["q"])
         if fn is None:
